@@ -320,6 +320,9 @@ def _mk_builtin_classes():
     mk('UnboundLocalError', 'NameError')
     mk('RuntimeError', 'Exception')
     mk('NotImplementedError', 'RuntimeError')
+    mk('RecursionError', 'RuntimeError')
+    mk('OverflowError', 'ArithmeticError')
+    mk('MemoryError', 'Exception')
     mk('StopIteration', 'Exception')
     mk('OSError', 'Exception')
     mk('ImportError', 'Exception')
@@ -910,6 +913,11 @@ class Interp:
             return a + b
         if isinstance(a, (list, tuple)) and op is ast.Mult and isinstance(b, int):
             return a * b
+        if isinstance(a, (list, tuple)) or isinstance(b, (list, tuple)):
+            h = getattr(self.world, 'seq_binop_hook', None)
+            r = h(self, op, a, b) if h is not None else NotImplementedVal
+            if r is not NotImplementedVal:
+                return r
         if a is None or b is None:
             raise self.exc('TypeError', 'unsupported operand type NoneType')
         if not (is_number(a) or isinstance(a, bool) or (is_z3(a) and z3.is_bool(a))) or \
@@ -992,6 +1000,9 @@ class Interp:
                 return a * b
             if isinstance(a, str) and is_z3(b):
                 return FmtStr([('*', a, b)])
+            h = getattr(self.world, 'str_repeat_hook', None)
+            if h is not None and (is_z3(b) and z3.is_int(b) or isinstance(b, int)) and not isinstance(b, bool):
+                return h(self, a, b)
         raise Unsupported('string op %s' % op.__name__)
 
     def nd_binop(self, op, a, b):
@@ -1633,7 +1644,7 @@ class Interp:
             raise Unsupported('augassign target')
 
     def augop(self, op, cur, v):
-        if isinstance(cur, list) and op is ast.Add:
+        if isinstance(cur, list) and op is ast.Add and not (isinstance(v, Obj) and self.world._abs(v, 'binop') is not None):
             self.world.note_mutation(self, cur)
             cur.extend(self.iterate(v))
             return cur
@@ -1822,7 +1833,14 @@ class Interp:
         env.local[node.name] = Func(node, env.module, None, env, node.name)
 
     def s_Import(self, node, env):
-        raise Unsupported('import inside function')
+        # function-level import: bind the local names the way the module-level table does (resolve_import: repo module or extern model)
+        for a in node.names:
+            if a.asname is None and '.' in a.name:
+                raise Unsupported('function-level import of a dotted module without "as"')
+            env.local[a.asname or a.name] = self.world.resolve_import(self, env.module, ('module', a.name, 0))
 
     def s_ImportFrom(self, node, env):
-        raise Unsupported('import inside function')
+        for a in node.names:
+            if a.name == '*':
+                raise Unsupported('star import inside function')
+            env.local[a.asname or a.name] = self.world.resolve_import(self, env.module, ('from', node.module or '', a.name, node.level))
